@@ -355,6 +355,47 @@ pub fn groups(property: &str, tier: &str, seed: u64) -> Vec<Group> {
         out.push(Group { property: property.into(), index: out.len(),
                     position: 0, seed: gseed, reference, recipe });
     }
+    // sources obtained from the corpus by one or two small structural edits (a few lines dropped
+    // or duplicated, a collection emptied, a number at a boundary, a token edit): those that
+    // still compile are compilable sources like any other, with shapes the corpus does not have
+    // (an order list that omits glyphs, an empty-but-present list, a duplicated record)
+    let n_edit = match (property, quick) {
+        ("C01", true) | ("C14", true) => 60,
+        ("C01", false) | ("C14", false) => 600,
+        _ => 0,
+    };
+    let editable: Vec<&String> = corpus.iter().filter(|s| !s.starts_with("extra:")).collect();
+    for _ in 0..n_edit {
+        if editable.is_empty() {
+            break;
+        }
+        let src = (*rng.pick(&editable)).clone();
+        let files: Vec<String> = crate::tree::closure(&src)
+            .into_iter()
+            .filter(|f| f.ends_with(".plist") || f.ends_with(".glyphs") || f.ends_with(".designspace") || f.ends_with(".glif") || f.ends_with(".fea") || f.ends_with(".glyph"))
+            .collect();
+        if files.is_empty() {
+            continue;
+        }
+        let mut o = opts[if rng.chance(2, 3) { 0 } else { 1 + rng.below(5) }].clone();
+        if property == "C14" {
+            o.emit_ir = false;
+            o.emit_debug = false;
+            o.output_in_ir_dir = false;
+        }
+        let mut reference = Plan::reference(property, &src, o);
+        reference.hash_seed = rng.next();
+        for _ in 0..(1 + rng.below(2)) {
+            let kind = *rng.pick(&["src-drop-few", "src-drop-few", "src-dup-few", "src-empty-coll", "src-empty-coll", "src-number", "src-tokens"]);
+            // the small, list-like files are where an edit most often leaves a valid source
+            let small: Vec<&String> = files.iter().filter(|f| !f.ends_with(".glif") && !f.ends_with(".glyph")).collect();
+            let target = if !small.is_empty() && rng.chance(3, 4) { (*rng.pick(&small)).clone() } else { rng.pick(&files).clone() };
+            reference.faults.push(Fault { kind: kind.to_string(), target: Some(target), nth: 0, arg: (rng.next() >> 1) as i64 });
+        }
+        let gseed = rng.next();
+        let recipe = if property == "C01" { Recipe::C01 { n: if quick { 5 } else { 12 } } } else { Recipe::C14 { n: if quick { 4 } else { 10 } } };
+        out.push(Group { property: property.into(), index: out.len(), position: 0, seed: gseed, reference, recipe });
+    }
     out
 }
 
